@@ -102,7 +102,7 @@ def evaluate(case):
     k = case.get("k", len(case.get("faults") or []))
     vs, applied, classes, summ, _ = run_case(case, k)
     cfg = case["cfg"]
-    key = (str(sorted(cfg.items())), str(case.get("file")), str(case.get("faults")), str(case.get("pacing")), case.get("tick_mode"))
+    key = (str(sorted(cfg.items())), str(case.get("file")), str(case.get("faults")), str(case.get("pacing")), case.get("tick_mode"), str(case.get("extra_polls")))
     return Result(vs, applied >= 1, classes, summ, nt_key=key)
 
 
@@ -123,10 +123,12 @@ def _pdu_sequence(case):
 
 def exhaustive_cases(shard, nshards):
     idx = 0
-    for size, immediate, closure in itertools.product(SIZES, [True, False], [False, True]):
+    for size, immediate, closure, polls in itertools.product(SIZES, [True, False], [False, True], [None, [3, 3]]):
         cfg = base_cfg(immediate, closure, 2)
         f = {"pat": b"\x11\x22\x33\x44\x55", "size": size}
         nominal = {"cfg": cfg, "file": f, "faults": [], "k": 2}
+        if polls:
+            nominal["extra_polls"] = polls
         if idx % nshards == shard:
             yield nominal
         idx += 1
@@ -137,6 +139,8 @@ def exhaustive_cases(shard, nshards):
             if idx % nshards != shard:
                 continue
             c1 = {"cfg": cfg, "file": f, "faults": [f1], "k": 2}
+            if polls:
+                c1["extra_polls"] = polls
             yield c1
             seq1 = _pdu_sequence(c1)
             for kind, n in seq1:
@@ -147,7 +151,10 @@ def exhaustive_cases(shard, nshards):
                             continue  # same PDU: unordered pair of different actions once
                         if (f2[0], f2[1]) != (f1[0], f1[1]) and [f2[0], f2[1]] < [f1[0], f1[1]] and (f2[0], f2[1]) in {(k2, o2) for k2, n2 in seq0 for o2 in range(n2)}:
                             continue  # both PDUs exist in the nominal run: the pair is produced from the other first fault
-                        yield {"cfg": cfg, "file": f, "faults": [f1, f2], "k": 2}
+                        c2 = {"cfg": cfg, "file": f, "faults": [f1, f2], "k": 2}
+                        if polls:
+                            c2["extra_polls"] = polls
+                        yield c2
 
 
 # ---------------------------------------------------------------- sampled part
@@ -172,6 +179,8 @@ def sampled_case(draw):
         case["pacing"] = draw(S.pacing_scripts(max_len=25))
     if draw(st.integers(0, 3)) == 0:
         case["tick_mode"] = "exact"
+    if draw(st.integers(0, 2)) == 0:
+        case["extra_polls"] = [draw(st.integers(0, 4)), draw(st.integers(0, 4))]
     return case
 
 
